@@ -510,6 +510,27 @@ def r2_default(program, rep):
                 len(conds) == 1 and conds[0][1] is False and \
                 conds[0][0][0] == "call" and \
                 conds[0][0][1] == ("global", "_is_defaultable")
+            if not okk and len(conds) == 1 and conds[0][1] is False and \
+                    conds[0][0][0] == "cmp" and conds[0][0][1] == "In" and \
+                    conds[0][0][2] == ("index", TBL) and \
+                    conds[0][0][3][0] == "new":
+                # kept iff its index is not in the set of indices collected
+                # (by one loop over the same table) under the predicate
+                b2 = M.filtered(conds[0][0][3])
+                if b2 and len(b2) == 1:
+                    it2, elt2, conds2 = b2[0]
+                    okk = plain(it) == plain(it2) == (
+                        "call", ("global", "enumerate"), (TBL,), ()) and \
+                        elt == ("elem", TBL) and \
+                        elt2 == ("index", TBL) and len(conds2) == 1 and \
+                        conds2[0][1] is True and \
+                        conds2[0][0][0] == "call" and \
+                        conds2[0][0][1] == ("global", "_is_defaultable")
+                if not okk:
+                    raise AnalysisError("remove_default_routes.minimise: "
+                                        "the entries kept are chosen by "
+                                        "their index in a collection whose "
+                                        "construction is not analysed")
     rep.check(okk, "C04-R2", qual(mn), "the result keeps, in order, exactly "
               "the entries that are not defaultable",
               construct="kept entries", node=mn)
@@ -786,14 +807,15 @@ def r3_ranges(program, rep):
         ok = yt[0] == "elem"
         if ok:
             own = ("new", ANY, ("list", KM))
+            own_t = ("tuple", KM)        # (a tuple display is no "new")
             seen_lookup = False
             for alt in alternatives(yt[1]):
-                if match(own, alt) is not None:
+                if match(own, alt) is not None or alt == own_t:
                     continue
                 lk = lookup(alt)
                 if alt[0] == "get" and len(alt) == 4:
                     lk = (alt[1], alt[2]) if match(own, alt[3]) is not None \
-                        else None
+                        or alt[3] == own_t else None
                 if lk is not None and lk[0] == ("param", al) and \
                         lk[1] == KM:
                     seen_lookup = True
@@ -1453,6 +1475,10 @@ def r5_contract(program, rep):
             stuck = any(t[0] == "cmp" and t[1] == "LtE" and p and
                         t[3] == ("const", 0) and t[2][0] == "attr" and
                         t[2][2] == "goodness" for t, p in facts) or any(
+                # (goodness counts entries: < 1 is <= 0)
+                t[0] == "cmp" and t[1] == "Lt" and p and
+                t[3] == ("const", 1) and t[2][0] == "attr" and
+                t[2][2] == "goodness" for t, p in facts) or any(
                 t[0] == "cmp" and t[1] == "Lt" and not p and
                 t[2] == ("const", 0) and t[3][0] == "attr" and
                 t[3][2] == "goodness" for t, p in facts)
